@@ -182,7 +182,7 @@ def fam_requery(R, deg):
     cls = {1: Line, 2: QuadraticBezier, 3: CubicBezier}[deg]
     fields = {1: ['start', 'end'], 2: ['start', 'control', 'end'],
               3: ['start', 'control1', 'control2', 'end']}[deg]
-    R.bound(degree=deg, history='query all; reassign every control point; one query (a fresh object per re-query)')
+    R.bound(degree=deg, history='query all; reassign one control point / all control points; one query (a fresh object per re-query)')
     queries = [
         ('point', lambda s, t: s.point(t)),
         ('poly', lambda s, t: s.poly()(t)),
@@ -198,13 +198,18 @@ def fam_requery(R, deg):
         t = symr('t')
         Ctx.cur.assume(z3.Not(ceq(ps[0], ps[-1])), z3.Not(ceq(qs[0], qs[-1])))
         first, second = [], []
-        # one object per re-query, so that no earlier re-query can refresh what a later one reads
-        for n, f in queries:
-            seg = cls(*ps)
-            first = [(n_, f_(seg, t)) for n_, f_ in queries]
-            for name, q in zip(fields, qs):
-                setattr(seg, name, q)
-            second.append((n, f(seg, t)))
+        # one object per re-query, so that no earlier re-query can refresh what a later one reads;
+        # every single field alone and all fields together are reassigned (an invalidation keyed on some fields only shows on the others)
+        subsets = [[i] for i in range(len(fields))] + [list(range(len(fields)))]
+        for sub in subsets:
+            cur = [qs[i] if i in sub else ps[i] for i in range(len(ps))]
+            Ctx.cur.assume(z3.Not(ceq(cur[0], cur[-1])))
+            for n, f in queries:
+                seg = cls(*ps)
+                first = [(n_, f_(seg, t)) for n_, f_ in queries]
+                for i in sub:
+                    setattr(seg, fields[i], qs[i])
+                second.append((n, f(seg, t), cur, sub))
         return ps, qs, t, first, second
 
     for ctx, (kind, val) in explore(run, maxpaths=400):
@@ -213,12 +218,12 @@ def fam_requery(R, deg):
             R.error('unexpected %s %r' % (kind, val))
             continue
         ps, qs, t, first, second = val
-        for name, got in second:
-            want = deriv_oracle(qs, t, int(name[-1])) if name.startswith('derivative') else bern(qs, t)
+        for name, got, cur, sub in second:
+            want = deriv_oracle(cur, t, int(name[-1])) if name.startswith('derivative') else bern(cur, t)
 
-            def cex(m, name=name):
+            def cex(m, name=name, cur=cur, sub=sub):
                 p0 = [mcval(m, p) for p in ps]
-                q0 = [mcval(m, p) for p in qs]
+                q0 = [mcval(m, p) for p in cur]
                 tv = mval(m, t)
                 call = {'point': 'seg.point(t)', 'poly': 'seg.poly()(t)', 'points': 'seg.points([t,0,1])[0]',
                         'bez2poly': 'np.poly1d(bez2poly(seg))(t)', 'derivative1': 'seg.derivative(t,1)',
@@ -233,12 +238,12 @@ t = %r
 seg = %s(*ps)
 for c in [%s]:
     pass  # first round of queries
-for nm, q in zip(%r, qs):
-    setattr(seg, nm, q)
+for i, (nm, q) in enumerate(zip(%r, qs)):
+    if i in %r: setattr(seg, nm, q)
 got = complex(%s); want = complex(%s)
 if abs(got - want) > 1e-9 * max(1.0, max(abs(p) for p in qs)) * max(1.0, abs(t))**%d:
     REPRODUCED('%s.%s after reassigning control points: got %%r, oracle %%r' %% (got, want))
-''' % (p0, q0, tv, NAMES[deg], ', '.join(call.values()), fields, call[name], want_s, deg, NAMES[deg], name)
+''' % (p0, q0, tv, NAMES[deg], ', '.join(call.values()), fields, sub, call[name], want_s, deg, NAMES[deg], name)
                 return {'cls': '%s.%s.after-reassign' % (NAMES[deg], name), 'inputs': {'ps': str(p0), 'qs': str(q0), 't': tv}, 'script': script}
             R.ob('%s.requery.%s' % (NAMES[deg], name), ctx, ceq(got, want), cex=cex)
         R.sample({'class': NAMES[deg], 'history': ['query*6', 'set ' + ','.join(fields), 'query*6']})
@@ -260,12 +265,29 @@ def fam_generic(R):
         for ctx, (kind, val) in explore(run, maxpaths=50):
             R.path(ctx)
             if kind != 'ok':
-                R.error('unexpected %s %r' % (kind, val))
+                R.unexpected(ctx, 'unexpected %s %r' % (kind, val))
                 continue
             ps, t, co, back, bp = val
-            R.ob('b2p.eval.deg%d' % deg, ctx, ceq(np.poly1d(list(co))(t), bern(ps, t)))
-            R.ob('p2b.b2p.deg%d' % deg, ctx, z3.And(*[ceq(a, b) for a, b in zip(back, ps)]))
-            R.ob('bezier_point.deg%d' % deg, ctx, ceq(bp, bern(ps, t)))
+
+            def cex(m, ps=ps, t=t):
+                p0 = [mcval(m, p) for p in ps]
+                return {'cls': 'bezier2polynomial / polynomial2bezier / bezier_point on raw control points', 'inputs': {'ps': str(p0), 't': mval(m, t)},
+                        'script': REPLAY_ORACLE + '''
+from svgpathtools.bezier import bezier2polynomial, polynomial2bezier, bezier_point
+import numpy as np
+ps = %r; t = %r
+scale = 1 + max(abs(p) for p in ps)
+co = bezier2polynomial(ps)
+for form in (list(co), tuple(co), np.array(list(co))):
+    back = polynomial2bezier(form)
+    if len(back) != len(ps) or any(abs(a - b) > 1e-9 * scale for a, b in zip(back, ps)):
+        REPRODUCED('polynomial2bezier(%%s(bezier2polynomial(%%r))) = %%r' %% (type(form).__name__, ps, back))
+if abs(np.poly1d(list(co))(t) - bernF(ps, t)) > 1e-9 * scale * max(1, abs(t)) ** len(ps): REPRODUCED('bezier2polynomial(%%r) evaluated at %%r is %%r, the curve point is %%r' %% (ps, t, np.poly1d(list(co))(t), bernF(ps, t)))
+if abs(bezier_point(ps, t) - bernF(ps, t)) > 1e-9 * scale * max(1, abs(t)) ** len(ps): REPRODUCED('bezier_point(%%r, %%r) = %%r, the curve point is %%r' %% (ps, t, bezier_point(ps, t), bernF(ps, t)))
+''' % (p0, mval(m, t))}
+            R.ob('b2p.eval.deg%d' % deg, ctx, ceq(np.poly1d(list(co))(t), bern(ps, t)), cex=cex)
+            R.ob('p2b.b2p.deg%d' % deg, ctx, z3.And(*[ceq(a, b) for a, b in zip(back, ps)]) if len(back) == len(ps) else z3.BoolVal(False), cex=cex)
+            R.ob('bezier_point.deg%d' % deg, ctx, ceq(bp, bern(ps, t)), cex=cex)
             R.sample({'degree': deg, 'claim': 'polynomial2bezier(bezier2polynomial(p)) == p'})
 
 
